@@ -122,6 +122,7 @@ def main():
         P.ensure_rsdump()
         exe, build_s = P.build_compiler()
         corpus = P.Corpus(scratch, exe, seed, tier, want_random=True)
+        repo_names = corpus.add_repo_theories(scratch, exe) if tier == "thorough" and not cfg.get("selfcomp") else []
     except P.Inconclusive as ex:
         print("INCONCLUSIVE: %s" % ex)
         sys.exit(2)
@@ -138,7 +139,7 @@ def main():
         if cfg.get("only_enum") and not L.enum_types(su, sch):
             continue
         schemas[name] = (su, sch)
-        for U in tier_universes(tier, name, corpus):
+        for U in ([2] if pinfo.get("kind") == "repo" else tier_universes(tier, name, corpus)):
             for lname, _ in L.all_lemmas(su):
                 if lname == "uf" and name != sorted(corpus.programs)[0]:
                     continue          # program independent: once is enough
@@ -193,7 +194,12 @@ def main():
         P.log("Kani on the real unification.rs")
         kani = kani_uf.run(scratch)
         P.log("Kani: %s" % kani)
-    inconclusive = [r for r in results if r["status"] == "inconclusive"]
+    # the repository's own (large) theories are an extra of the thorough tier: a lemma that runs into the time / memory limits on one
+    # of them is recorded as undecided (nothing is claimed for it); it does not make the check inconclusive
+    def is_limit(r):
+        return corpus.programs[r["program"]].get("kind") == "repo" and any(w in r.get("reason", "") for w in ("Timeout", "timeout", "MemoryError", "time limit"))
+    undecided = [r for r in results if r["status"] == "inconclusive" and is_limit(r)]
+    inconclusive = [r for r in results if r["status"] == "inconclusive" and not is_limit(r)]
     failed = [r for r in results if r["status"] == "failed"]
     violations = []
     known_hits = []
@@ -295,6 +301,7 @@ def main():
         "vacuity_witnesses": {"%s/%s" % k: v for k, v in cover.items()},
         "known_findings_hit": [{"id": k["id"], "program": n, "labels": ls} for k, n, ls in known_hits],
         "inconclusive": [{k: r[k] for k in ("program", "U", "lemma", "reason")} for r in inconclusive][:10],
+        "undecided_within_limits (nothing claimed)": sorted("%s U=%d %s" % (r["program"], r["U"], r["lemma"]) for r in undecided)[:60],
         "unconfirmed": [str(u)[:600] for u in unconfirmed][:10],
         "compiler_build_s": round(build_s, 1),
         "kani_unification": kani,
